@@ -108,6 +108,8 @@ def in_domain(case):
             return False
         if case.get("style") not in (None, "shared_view"):
             return False
+        if case.get("header") not in (None, "same_writer", "other_writer"):
+            return False
         win = case.get("window")
         if win is not None and not (isinstance(win, list) and len(win) == 3
                                     and all(type(x) is int and 0 <= x <= 64 for x in win)):
@@ -267,13 +269,31 @@ def check_case(c, case, res=None):
     chunks, plans = case["chunks"], case["plans"]
     w = c.data.EoWriter()
     spans = []
-    status, val = wrgen.call(_write_all, w, chunks, lambda i, a, b: spans.append((a, b)))
+    hdr = case.get("header")
+    if hdr:
+        # an unchunked header in front of the chunked body (or an earlier message of another writer) carries the
+        # same texts with sanitisation OFF: what was written raw before must not decide what is written now
+        hw = w if hdr == "same_writer" else c.data.EoWriter()
+
+        def _header():
+            hw.string_sanitization_mode = False
+            for ch in chunks:
+                for f in ch:
+                    if f[0] in FIELD_STR:
+                        _write_field(hw, f)
+        status, val = wrgen.call(_header)
+        if status == "exc":
+            raise Violation("write_accepted", case, "every in-domain write is accepted", val,
+                            "while writing the unsanitised header")
+    hlen = len(w)
+    status, val = wrgen.call(_write_all, w, chunks, lambda i, a, b: spans.append((a - hlen, b - hlen)))
     if status == "exc":
         raise Violation("write_accepted", case, "every in-domain write is accepted", val,
                         f"while writing chunk {len(spans)}")
     status, data = wrgen.call(lambda: bytes(w.to_bytearray()))
     if status == "exc":
         raise Violation("to_bytearray", case, "bytes", data)
+    data = data[hlen:]          # the chunked body; the header (if any) is read elsewhere
     # side oracle: no chunk's own bytes contain the break byte
     for i, (a, b) in enumerate(spans):
         if 0xFF in data[a:b]:
@@ -386,6 +406,8 @@ def _account(case, data, res):
     for plan in case["plans"]:
         for sh in _plan_shape(chunks, plan):
             res.labels["chunk_plan:" + {"u": "under", "o": "over", "f": "full", "-": "empty"}[sh]] += 1
+    if case.get("header"):
+        res.labels["unsanitised_header:" + case["header"]] += 1
     same = sum(1 for a, b in zip(*case["plans"]) if a == b)
     res.labels["plans_equal_on_chunks:" + ("none" if same == 0 else "all" if same == len(chunks) else "some")] += 1
     if _is_nontrivial(case):
@@ -450,7 +472,13 @@ def case_strategy():
 
     window = st.one_of(st.just((0, 0, 0)), st.tuples(st.integers(0, 6), st.integers(0, 6), st.integers(0, 5)))
     style = st.sampled_from([None, None, None, None, "shared_view"])
-    return st.builds(build, st.lists(_chunk(), min_size=1, max_size=6), window, style)
+    header = st.sampled_from([None, None, None, None, "same_writer", "same_writer", "other_writer"])
+
+    def with_header(case, h):
+        if h:
+            case["header"] = h
+        return case
+    return st.builds(with_header, st.builds(build, st.lists(_chunk(), min_size=1, max_size=6), window, style), header)
 
 
 LONG_LENGTHS = (250, 253, 255, 256, 1023, 1024, 4095, 4096, 4097, 8192, 64006, 64007, 64008, 64009, 64010, 65535, 65536, 70001)
